@@ -150,6 +150,7 @@ def main():
     ap.add_argument("--only")
     ap.add_argument("--jobs", type=int, default=int(os.environ.get("XSV_JOBS", "16")))
     ap.add_argument("--no-evidence", action="store_true")
+    ap.add_argument("--sample", type=int, default=0, help="sizing aid: run only every N-th job of the plan (implies --no-evidence; never used by registered commands)")
     ap.add_argument("--fail-fast", action="store_true", help="self-test mode: stop scheduling jobs after the first refuted one (never used by registered commands)")
     args = ap.parse_args()
     prop = args.prop.upper()
@@ -176,6 +177,9 @@ def main():
     jobs = mod.plan(tier)
     if args.only:
         jobs = [j for j in jobs if args.only in j.key]
+    if args.sample:
+        jobs = jobs[:: args.sample]
+        args.no_evidence = True
 
     pending_errors = []
     results, twins = {}, {}
